@@ -20,7 +20,7 @@ fn img(guid: &str, kind: usize, mask: bool, n: usize, id: u64) -> Image {
     i
 }
 
-pub const N_SCENES: usize = 10;
+pub const N_SCENES: usize = 11;
 
 pub fn scene(k: usize) -> Scene {
     match k {
@@ -129,6 +129,25 @@ pub fn scene(k: usize) -> Scene {
         8 => {
             let mut s = base("s8");
             s.clouds.push(cloud("c0", xyz(Ty::Int { min: 5, max: 5 }), 4, 12));
+            s
+        }
+        9 => {
+            // wide integers at every bit phase: 59, 61, 63 and 58 bits, values near the maximum
+            let mut s = base("s10");
+            let p = vec![
+                rec("cartesianX", Ty::Int { min: 0, max: (1 << 59) - 1 }),
+                rec("cartesianY", Ty::Int { min: -(1 << 60), max: (1 << 60) - 1 }),
+                rec("cartesianZ", Ty::Scaled { min: 0, max: i64::MAX, scale: 1e-9, offset: 0.0 }),
+                rec("intensity", Ty::Int { min: 1, max: 1 << 57 }),
+            ];
+            let mut c = cloud("c0", p, 9, 13);
+            for (i, pt) in c.points.iter_mut().enumerate() {
+                pt[0] = Val::Int((1 << 59) - 1 - (i as i64) * 3);
+                pt[1] = Val::Int(if i % 2 == 0 { (1 << 60) - 1 - i as i64 } else { -(1 << 60) + i as i64 });
+                pt[2] = Val::Scaled(i64::MAX - (i as i64) * 7);
+                pt[3] = Val::Int((1 << 57) - i as i64);
+            }
+            s.clouds.push(c);
             s
         }
         _ => {
